@@ -11,7 +11,7 @@ CONSTANTS
   AO = FALSE
   Fine = TRUE
   MaxDefers = 2
-  Fix = {"F18"}
+  Fix = {"F18", "F20"}
   Mut = {}
   Shapes <- ShapesTiny
   GenLen = 1
